@@ -93,6 +93,7 @@ def run(ctx: core.Ctx) -> int:
             ctx.oblige("TABLES", f"{F}:{q('Create')}", f"Create[{k.value!r}] = {ast.unparse(v)}", ast.unparse(v) == k.value, file=F, func=q("Create"),
                        construct=f"Create {k.value}", msg=f"Create passes {ast.unparse(v)} as '{k.value}'")
     set_params_rule(ctx, cls, ctx.parse(F))
+    input_pure(ctx, mod)
     # ---------------------------------------------------------------- VECTOR (E2 iteration inventory of writer and reader)
     sc = scenarios.PyEKF(ctx, prog, run=())
     it = sc.it
@@ -330,6 +331,50 @@ def _paths(stmts, prefix=None):
                 nxt.append(p_ + [("stmt", st)])
         out = nxt
     return out
+
+
+def input_pure(ctx: core.Ctx, mod: ast.Module, rule="INPUT-PURE"):
+    """INPUT-PURE: compiling a filter does not write into what it was given.  The estimator hands its own parameter objects (the sensor-model and
+    noise dicts, the calibration map, the symbolic model) to compile_ekf on every transform / score / fit / export; a constructor on that path
+    that stores into a parameter -- or into an attribute that is just an alias of one -- rewrites the estimator's parameters behind its back
+    (get_params / clone then hand the rewritten ones on).  Decided per constructor of the compile path with the effect analysis (fv.effects):
+    item stores / in-place operators / mutating calls whose base is a parameter or a `self.x = <parameter>` alias."""
+    from .. import effects
+    ctx.rule(rule, "the constructors on the compile path do not store into the objects they are given (nor into attributes that alias them)")
+    path = [("Model", "__init__"), ("SensorModel", "__init__"), ("ExtendedKalmanFilter", "__init__"), ("ExtendedKalmanFilter", "_construct_process"),
+            ("ExtendedKalmanFilter", "_construct_sensors"), (None, "compile_ekf"), (None, "compile")]
+    n = 0
+    for cname, fname in path:
+        scope = core.find_class(mod, cname) if cname else mod
+        fn = core.find_func(scope, fname) if scope is not None else None
+        if fn is None:
+            continue
+        n += 1
+        q = f"{cname}.{fname}" if cname else fname
+        params = {a.arg for a in fn.args.posonlyargs + fn.args.args + fn.args.kwonlyargs} - {"self", "cls"}
+        # attributes / locals that are plain aliases of a parameter
+        alias = {}
+        for a in ast.walk(fn):
+            if isinstance(a, ast.Assign) and isinstance(a.value, ast.Name) and a.value.id in params:
+                for t in a.targets:
+                    alias[ast.unparse(t)] = a.value.id
+        # parameters that the function itself replaces by a fresh object first (`calibration_map = {}` under `is None`) stay parameters: a later
+        # store would still hit the caller's object on the other path
+        bad = []
+        for w in effects.writes(fn):
+            if w.kind == "attr":
+                continue
+            root = w.target.split("[")[0]
+            base = root if root in alias or root in params else (root.split(".")[0] if root.split(".")[0] in params else None)
+            if base is None:
+                continue
+            bad.append((w, alias.get(base, base)))
+        ctx.oblige(rule, f"{F}:{q}", f"stores into given objects: {[(w.text[:50], p_) for w, p_ in bad]}", not bad, file=F, func=q,
+                   construct="input mutated: " + (bad[0][0].target if bad else ""),
+                   msg=(f"{q} writes into the object it was given as `{bad[0][1]}` (`{bad[0][0].text[:80]}`): the estimator's own parameter is rewritten by "
+                        f"compiling the filter -- after a transform / fit its parameters are no longer the ones it was created with") if bad else "",
+                   line=bad[0][0].line if bad else None)
+    ctx.floor(rule, n, 5, "constructors / entry points on the compile path")
 
 
 def set_params_rule(ctx, cls, mod=None):
